@@ -26,6 +26,7 @@ MANIFEST = dict(
 
 PATH_ALPHA = [b"/", b".", b"%", b"2", b"e", b"F", b"a", b"\\", b"?", b"\x01", b"\x7f",
               b"\xc0", b"5", b"c"]
+PATH_ALPHA_NUL = PATH_ALPHA + [b"\x00"]
 URL_ALPHA = PATH_ALPHA + [b"#", b"0", b"+", b"&", b"f", b"\xf5", b"3", b"A"]
 # parseopts combinations configfile.c can produce (plus 0 = normalisation off)
 FLAGSETS = [0, 8 | 16, 8 | 32, 8 | 16 | 64 | 256 | 1024 | 8192, 8 | 32 | 64 | 512 | 2048 | 4096,
@@ -113,8 +114,9 @@ def gen(ctx):
     n_path = 5 if ctx.quick else 6
     n_url = 3 if ctx.quick else 4
     path_lines, url_lines = [], []
+    # (NUL is a byte like any other for buffer_path_simplify, and stops buffer_urldecode_path)
     for n in range(0, n_path + 1):
-        for t in itertools.product(PATH_ALPHA, repeat=n):
+        for t in itertools.product(PATH_ALPHA_NUL if n <= n_path - 1 else PATH_ALPHA, repeat=n):
             s = b"".join(t)
             h = C.hx(s)
             path_lines.append("simp " + h)
